@@ -36,6 +36,9 @@ type c12Params struct {
 	// D is the number of data shards (default 3).
 	D int `json:"d,omitempty"`
 	RaceMode bool   `json:"race_mode,omitempty"`
+	// Dup: "yes" forces files that share leading slices (and at least three
+	// files, so two scanners meet on the same bookkeeping), "" draws it.
+	Dup string `json:"dup,omitempty"`
 }
 
 func init() {
@@ -108,7 +111,7 @@ func (c *c12) Cases(tier string, seed int64) []core.Case {
 		cs = append(cs, cse)
 	}
 	for i := 0; i < 4; i++ {
-		cse := core.MkCase(fmt.Sprintf("race-create-%d", i), c12Params{Mode: "create", Seed: r.Int63(), RaceMode: true})
+		cse := core.MkCase(fmt.Sprintf("race-create-%d", i), c12Params{Mode: "create", Seed: r.Int63(), RaceMode: true, Dup: map[bool]string{true: "yes"}[i%2 == 0]})
 		cse.Race = true
 		cs = append(cs, cse)
 	}
@@ -117,7 +120,7 @@ func (c *c12) Cases(tier string, seed int64) []core.Case {
 		n = 60
 	}
 	for i := 0; i < n; i++ {
-		cs = append(cs, core.MkCase(fmt.Sprintf("create-%d", i), c12Params{Mode: "create", Seed: r.Int63()}))
+		cs = append(cs, core.MkCase(fmt.Sprintf("create-%d", i), c12Params{Mode: "create", Seed: r.Int63(), Dup: map[bool]string{true: "yes"}[i%4 == 0]}))
 	}
 	cs = append(cs, core.MkCase("cores-unknown", c12Params{Mode: "cores", Seed: r.Int63()}))
 	return cs
@@ -461,12 +464,15 @@ func (c *c12) runCreate(r *core.R, p c12Params) {
 	rng := rand.New(rand.NewSource(p.Seed))
 	slice := []int{4, 8, 20, 64, 100, 512, 2000, 2004, 4100}[rng.Intn(9)]
 	nf := 1 + rng.Intn(4)
+	if p.Dup == "yes" {
+		nf = 3 + rng.Intn(3)
+	}
 	set := scen.Set{SliceSize: slice, Blocks: 1 + rng.Intn(6)}
 	for i := 0; i < nf; i++ {
 		n := scen.SizeAround(rng, slice, false)
 		set.Files = append(set.Files, scen.File{Name: scen.GenName(rng, i, true, true), Data: scen.GenData(rng, "random", n, slice)})
 	}
-	if p.Seed%2 == 0 && nf >= 2 {
+	if (p.Seed%2 == 0 || p.Dup == "yes") && nf >= 2 {
 		// identical slices in different files: scanning them touches the same
 		// bookkeeping entries
 		shared := scen.GenData(rng, "random", 3*slice, slice)
